@@ -87,6 +87,7 @@ pub fn run_hist(p: &HistProp, tier: &str, rep: &mut Report) {
     let refs: Vec<&dyn Oracle> = oracles.iter().map(|b| b.as_ref()).collect();
     let budget = std::env::var("VERIF_BUDGET_S").ok().and_then(|x| x.parse().ok()).unwrap_or((p.budget_s)(tier));
     let deadline = Some(Instant::now() + Duration::from_secs(budget));
+    *crate::engine::GLOBAL_DEADLINE.lock().unwrap() = Some(Instant::now() + Duration::from_secs(budget + 15));
     let mut names = Vec::new();
     let mut scripted_steps = 0u64;
     let mut scripts_run: Vec<String> = Vec::new();
